@@ -232,6 +232,19 @@ pub fn run(c: &Ctx) {
     let home = std::env::var_os("HOME");
     std::env::remove_var("HOME");
     crate::hsweep::history_sweep(c, 3, 103, 1, "model", |ops| run_ops(ops, &OPTS));
+    // "a single-target call that reports failure leaves the tree exactly as it was", for path arguments that are
+    // not valid UTF-8 (the reference has no such names: only the failure clause is judged)
+    for (desc, res, same, _bad) in crate::hsweep::odd_path_calls() {
+        c.eval(1);
+        c.nontrivial(fp(&("odd", &desc)));
+        c.class("non-utf8-path-argument");
+        let r = match res {
+            Err(p) => Err(Failure::new("panic|non-utf8-path", format!("{}: {}", desc, p))),
+            Ok(true) if !same => Err(Failure::new("failed-call-changed-the-tree|non-utf8-path", format!("{} reported failure, the state differs from the one before the call", desc))),
+            _ => Ok(()),
+        };
+        c.judge("odd", &json!(desc), r);
+    }
     if let Some(h) = home {
         std::env::set_var("HOME", h);
     }
